@@ -10,7 +10,7 @@
 //
 //	{"id":..,"exporters":N,"compression":""|"zstd","factory":bool,"workers":W,"batches":B,
 //	 "points":[p0,p1,..] (points of batch j = points[j % len]),"sleep_us":[..] (pause of worker w
-//	 before batch j = sleep_us[(w+j) % len]),"seed":S}
+//	 before batch j = sleep_us[(w+j) % len]),"seed":S,"consumer_delay_us":[..] (optional)}
 //
 // factory=true : exporters are built by NewFactory().CreateMetrics (the ConsumeMetrics entry point of
 // exporterhelper); their internals are not visible.  factory=false : the same construction as
@@ -60,6 +60,9 @@ type verifC19Case struct {
 	Points      []int  `json:"points"`
 	SleepUs     []int  `json:"sleep_us"`
 	Seed        int    `json:"seed"`
+	// the consumer behind the receiver blocks consumer_delay_us[k % len] microseconds in its k-th call
+	// (a backlog of frames builds up at the receiver and is then consumed in a burst)
+	ConsumerDelayUs []int `json:"consumer_delay_us"`
 }
 
 type verifC19Batch struct {
@@ -241,12 +244,24 @@ type verifSink struct {
 	calls [][]string
 	canon []string
 	n     int
+	delay []int
+	k     int
 }
 
 func (s *verifSink) Capabilities() consumer.Capabilities { return consumer.Capabilities{MutatesData: false} }
 
 func (s *verifSink) ConsumeMetrics(_ context.Context, md pmetric.Metrics) error {
 	pts := verifCanonPoints(md)
+	s.mu.Lock()
+	d := 0
+	if len(s.delay) > 0 {
+		d = s.delay[s.k%len(s.delay)]
+	}
+	s.k++
+	s.mu.Unlock()
+	if d > 0 {
+		time.Sleep(time.Duration(d) * time.Microsecond)
+	}
 	s.mu.Lock()
 	defer s.mu.Unlock()
 	s.calls = append(s.calls, verifHashes(pts))
@@ -301,7 +316,7 @@ func verifRunC19(c *verifC19Case) (out *verifC19Out) {
 	out = &verifC19Out{ID: c.ID, QuietMs: -1}
 	ctx := context.Background()
 	host := componenttest.NewNopHost()
-	sink := &verifSink{}
+	sink := &verifSink{delay: c.ConsumerDelayUs}
 
 	// ---- the real receiver
 	port := verifFreePort()
